@@ -35,7 +35,8 @@ class Contract:
                  static=False, with_handler=None, setup=None, on_yield=None, notes="", ghost=None,
                  exc_ensures=None, receiver_from_call=False, lemma_facts=None, harness=None, returns=None, constructor=False,
                  variant=None, new_obj=None, init_obj=None, yields=None,
-                 yield_may_throw=None, generator=False, expected_dead=()):
+                 yield_may_throw=None, generator=False, expected_dead=(),
+                 free_vars=None, store_hooks=None):
         self.file, self.qualname, self.params = file, qualname, params
         self.requires, self.ensures, self.raises = requires, ensures, raises or {}
         self.loops = loops or {}
@@ -64,6 +65,8 @@ class Contract:
         self.generator = generator or yields is not None
         # exit points that are unreachable under this contract's precondition: [(label, text the statement starts with)]
         self.expected_dead = tuple(expected_dead)
+        self.free_vars = free_vars or {}      # closure variables of a nested function: name -> type spec
+        self.store_hooks = store_hooks or {}  # name -> handler(eng, st, key, value, node) for ``name[key] = value``
         if returns is not None and make_result is None:
             def _mk(eng, st, bound, _spec=returns):
                 return make_symbolic(eng, eng.new_base("ret:" + qualname), _spec, st, set())
@@ -202,6 +205,9 @@ def generate(contract, registry=REG, finite=None, grid=None):
         for p in contract.params:
             if p not in params and not p.startswith("#"):
                 raise BindingError(f"contract parameter {p} is not a parameter of {contract.key}")
+        for p, spec in contract.free_vars.items():
+            v, st = make_symbolic(eng, p, spec, st, run.assumptions)
+            st = st.bind(p, v)
         if contract.generator:
             from .generators import init_out
             st = init_out(st)
